@@ -357,3 +357,28 @@ pub open spec fn pt_eq(a: PartialToken, b: PartialToken) -> bool {
 pub uninterp spec fn tok_eq(a: Token, b: Token) -> bool;
 pub assume_specification [<PartialToken as PartialEq>::eq](a: &PartialToken, b: &PartialToken) -> (r: bool) ensures r == pt_eq(*a, *b);
 } // verus!
+
+::vstd::prelude::verus! {
+// ---- str predicates that small edits tend to introduce (widening of the accepted subset; std semantics trusted)
+pub uninterp spec fn ends_with_spec<P>(s: Seq<char>, p: P) -> bool;
+pub uninterp spec fn starts_with_spec<P>(s: Seq<char>, p: P) -> bool;
+pub uninterp spec fn contains_pat_spec<P>(s: Seq<char>, p: P) -> bool;
+#[verifier::allow(undeclared_external_trait)]
+pub assume_specification<P: core::str::pattern::Pattern> [str::ends_with::<P>](s: &str, pat: P) -> (r: bool)
+    where for<'a> P::Searcher<'a>: core::str::pattern::ReverseSearcher<'a>
+    ensures r == ends_with_spec(s@, pat);
+#[verifier::allow(undeclared_external_trait)]
+pub assume_specification<P: core::str::pattern::Pattern> [str::starts_with::<P>](s: &str, pat: P) -> (r: bool)
+    ensures r == starts_with_spec(s@, pat);
+#[verifier::allow(undeclared_external_trait)]
+pub assume_specification<P: core::str::pattern::Pattern> [str::contains::<P>](s: &str, pat: P) -> (r: bool)
+    ensures r == contains_pat_spec(s@, pat);
+#[verifier::external_body]
+pub broadcast proof fn axiom_ends_with_char(s: Seq<char>, c: char)
+    ensures #[trigger] ends_with_spec::<char>(s, c) == (s.len() > 0 && s.last() == c)
+{}
+#[verifier::external_body]
+pub broadcast proof fn axiom_starts_with_char(s: Seq<char>, c: char)
+    ensures #[trigger] starts_with_spec::<char>(s, c) == (s.len() > 0 && s[0] == c)
+{}
+} // verus!
